@@ -9,6 +9,7 @@ package main
 import (
 	"fmt"
 	"go/ast"
+	"go/token"
 	"go/types"
 )
 
@@ -162,4 +163,113 @@ func ruleC14MapOrder(p *Prog, r *Res) {
 		})
 	}
 	r.Floor(rule, 1, n)
+}
+
+// ---- C14-d: Parse is re-entrant ----
+
+func init() {
+	register("C14",
+		"C14-d (AST, typed): query.Parse is called concurrently — from every request goroutine and from the service goroutine — and has no lock. Package query therefore keeps no mutable package-level state: no function body assigns a package-level variable of the package, stores into a package-level map or slice, deletes from one, or takes its address for a call; a memo added at package level makes two overlapping parses abort the process (`concurrent map read and map write`), which is a crash of a total function.",
+		func(p *Prog, r *Res) {
+			const rule = "C14-d parse-is-reentrant"
+			r.Rule(rule + ": package query has no package-level state that function bodies write")
+			pk := p.By["query"]
+			if pk == nil {
+				p.anchorFail("package query")
+				return
+			}
+			scope := pk.Types.Scope()
+			isPkgVar := func(o types.Object) bool {
+				v, ok := o.(*types.Var)
+				return ok && !v.IsField() && v.Parent() == scope
+			}
+			nVars := 0
+			for _, name := range scope.Names() {
+				if isPkgVar(scope.Lookup(name)) {
+					nVars++
+				}
+			}
+			writes := map[string]string{}
+			for _, f := range p.FnList {
+				if f.Short != "query" || f.Body() == nil {
+					continue
+				}
+				info := f.Pkg.TypesInfo
+				root := func(e ast.Expr) types.Object {
+					for {
+						switch x := ast.Unparen(e).(type) {
+						case *ast.IndexExpr:
+							e = x.X
+						case *ast.SelectorExpr:
+							if _, isPkg := info.Uses[identOf(x.X)].(*types.PkgName); isPkg {
+								return info.Uses[x.Sel]
+							}
+							e = x.X
+						case *ast.StarExpr:
+							e = x.X
+						case *ast.Ident:
+							return info.Uses[x]
+						default:
+							return nil
+						}
+					}
+				}
+				note := func(e ast.Expr, what string, n ast.Node) {
+					if o := root(e); o != nil && isPkgVar(o) {
+						writes[o.Name()] = what + " in " + f.Key() + " at " + p.Pos(n)
+					}
+				}
+				ast.Inspect(f.Body(), func(x ast.Node) bool {
+					switch s := x.(type) {
+					case *ast.AssignStmt:
+						if s.Tok != token.DEFINE {
+							for _, l := range s.Lhs {
+								note(l, "assigned", s)
+							}
+						}
+					case *ast.IncDecStmt:
+						note(s.X, "modified", s)
+					case *ast.CallExpr:
+						if isBuiltin(info, s, "delete") && len(s.Args) == 2 {
+							note(s.Args[0], "deleted from", s)
+						}
+						if isBuiltin(info, s, "clear") && len(s.Args) == 1 {
+							note(s.Args[0], "cleared", s)
+						}
+					case *ast.UnaryExpr:
+						if s.Op == token.AND {
+							if o := root(s.X); o != nil && isPkgVar(o) {
+								if _, isStruct := o.Type().Underlying().(*types.Struct); !isStruct || len(writes) < 0 {
+									writes[o.Name()] = "address taken in " + f.Key() + " at " + p.Pos(s)
+								}
+							}
+						}
+					}
+					return true
+				})
+			}
+			for _, name := range scope.Names() {
+				o := scope.Lookup(name)
+				if !isPkgVar(o) {
+					continue
+				}
+				key := "package variable query." + name + " is not written by function bodies"
+				// the address of a zero-size sentinel (impossibleCondition) may be taken: it has no state
+				if w, bad := writes[name]; bad {
+					if st, isStruct := o.Type().Underlying().(*types.Struct); isStruct && st.NumFields() == 0 {
+						r.Ok(rule, key, p.PosOf(o.Pos()), "stateless sentinel (empty struct); "+w)
+						continue
+					}
+					r.Bad(rule, key, p.PosOf(o.Pos()), "query."+name+" is "+w+": Parse runs concurrently on request goroutines and the service goroutine without a lock, two overlapping parses race on it (a map write during a read aborts the process)")
+				} else {
+					r.Ok(rule, key, p.PosOf(o.Pos()), "only read")
+				}
+			}
+			r.Floor(rule, 1, nVars)
+		})
+}
+
+func identOf(e ast.Expr) *ast.Ident {
+	id, _ := ast.Unparen(e).(*ast.Ident)
+	return id
 }
